@@ -8,6 +8,9 @@ fn main() {
     }
     let prop = args[1].as_str();
     quiet_panics();
+    if args[2] == "--profile-slice" {
+        engine::c03::profile_slice();
+    }
     if args[2] == "--scale" {
         engine::c04::scale_child(&args[3], args[4].parse().unwrap());
     }
